@@ -22,7 +22,7 @@ class C08(Prop):
     lean_modules = ["NV.C08.Props"]
     theorems = ["NV.C08.world_inv_preserved", "NV.C08.reachable_inv", "NV.C08.lookup_unique_live",
                 "NV.C08.lookup_unique_live_reachable", "NV.C08.inventories_forest", "NV.C08.destructed_never_visible",
-                "NV.C08.destructed_never_called", "NV.C08.destructed_never_moved_into",
+                "NV.C08.destructed_never_called", "NV.C08.destructed_never_moved_into", "NV.C08.destructed_mover_never_linked", "NV.C08.present_returns_member",
                 "NV.C08.remove_hash_precondition", "NV.C08.remove_hash_absent_drops_chain", "NV.C08.unlink_preserves",
                 "NV.C08.no_dangling", "NV.C08.task_no_crash", "NV.C08.no_crash", "NV.C08.init_only_adjacent",
                 "NV.C08.command_giver_valid", "NV.C08.command_target_live", "NV.C08.destructed_drops_sentences",
@@ -146,6 +146,11 @@ class C08(Prop):
             t ld,b0\nt cl,b0\nt ec,o2\nt mvs,o2,b1\nsnap\nprobe\nt mvs,o3,b2\nsnap\nt mvs,o3,b3\nsnap\nt mvs,o2,b4\nsnap\nt mvs,o3,b1\nt mvs,o2,b1
             t mvs,o3,nx\nt mvs,o3,bad\nt mvs,o9,b1\nt mvs,o4,b0\nt fis,b1\nt fis,b9\nt fis,nx\n""" + tail)
         mk("move-by-string-into-own-inventory", "t ld,b0\nt ld,b1\nt mvs,o3,b0\nt mvs,o2,b1\nt mvs,o2,b0\n" + tail)
+        # present(): id() hooks that move / destruct the object being asked, its neighbours, the environment
+        mk("present-id-moves-the-asked-object", """script o4 id mv,o4,o3\nt ld,b0\nt ld,b1\nt cl,b0\nt cl,b0\nt cl,b0\nt cl,b0
+            t mv,o5,o2\nt mv,o4,o2\nt mv,o6,o3\nt mv,o7,o3\nt pr,o2,o6\nt pr,o2,o5\nt pr,o3,o4\nt pr,o2,o9\n""" + tail)
+        mk("present-id-destructs", """script o4 id de,o5\nscript o4 id de,o4\nscript o6 id de,o2\nt ld,b0\nt cl,b0\nt cl,b0\nt cl,b0\nt cl,b0
+            t mv,o3,o2\nt mv,o5,o2\nt mv,o4,o2\nt mv,o6,o2\nt pr,o2,o3\nsnap\nt pr,o2,o3\nt pr,o2,o3\nt pr,o2,o3\n""" + tail)
         mk("references-read-zero", """t ld,b0\nt cl,b0\nt kp,o3\nt rd\nscript o3 create kp,o2;rd\nt de,o3\nt rd\nt kp,o3\nt mv,o3,o2\nt mv,o2,o3\nt ec,o3\nt ln,o3,x\nt de,o3\ngc\nt rd\n""" + tail)
         mk("reload-after-destruct", "t ld,b0\nt cl,b0\nt de,o2\nt fo,b0\nt ld,b0\nt fo,b0\nt cl,b0\nt fo,b0#1\nt fo,b0#2\ngc\nt de,o4\nt ld,b0\n" + tail)
         mk("find-moves-to-front", "t ld,b0\nt ld,b1\nt ld,b2\nt ld,b3\nt ld,b4\nt ld,b5\nt ld,b6\nt ld,b7\nsnap\nt fo,b0\nt fo,b3\nt fo,b5\nsnap\nt de,o4\nt de,o9\n" + tail)
@@ -158,9 +163,9 @@ class C08(Prop):
         return B
 
     OPS = [("ld", 9), ("cl", 14), ("mv", 28), ("de", 9), ("ec", 14), ("dc", 2), ("ln", 4), ("fo", 5), ("fl", 3),
-           ("kp", 3), ("rd", 2), ("err", 1), ("aa", 9), ("cmd", 8), ("mvs", 10), ("fis", 3)]
+           ("kp", 3), ("rd", 2), ("err", 1), ("aa", 9), ("cmd", 8), ("mvs", 10), ("fis", 3), ("pr", 6)]
     HOPS = [("ld", 5), ("cl", 8), ("mv", 24), ("de", 14), ("ec", 5), ("dc", 1), ("ln", 2), ("fo", 2), ("fl", 1),
-            ("kp", 2), ("rd", 2), ("err", 2), ("mvarg", 6), ("nop", 2), ("aa", 10), ("cmd", 3), ("mvs", 6), ("fis", 2)]
+            ("kp", 2), ("rd", 2), ("err", 2), ("mvarg", 6), ("nop", 2), ("aa", 10), ("cmd", 3), ("mvs", 6), ("fis", 2), ("pr", 2)]
 
     def gen_op(self, rng, st, table, self_id=None):
         k = rng.weighted(table)
@@ -195,6 +200,8 @@ class C08(Prop):
             if table is self.OPS:
                 st["top"] += 1 if rng.chance(1, 2) else 0
             return "mvs,%s,%s" % (mover, b)
+        if k == "pr":
+            return "pr,%s,%s" % (oid(), oid())
         if k == "fis":
             return "fis,%s" % rng.weighted([("b%d" % rng.below(st["nbp"]), 6), ("b%d" % (st["nbp"] + rng.below(40)), 6), ("nx", 1)])
         if k in ("de", "ec", "dc", "kp"):
@@ -243,7 +250,7 @@ class C08(Prop):
             # scripts for hooks that may fire during this step
             while nscripts < 14 and rng.chance(2, 5):
                 nscripts += 1
-                hk = rng.weighted([("create", 3), ("init", 6), ("mod", 5), ("act", 3)])
+                hk = rng.weighted([("create", 3), ("init", 6), ("mod", 5), ("act", 3), ("id", 4)])
                 if hk == "create":
                     target = st["est"] + 1 + rng.below(2)
                 else:
@@ -259,6 +266,19 @@ class C08(Prop):
                 if rng.chance(1, 2):
                     body.append("t " + self.gen_op(rng, st, self.OPS))
                 body.append("t cmd,o%d,%s" % (x, v))
+            elif rng.chance(1, 10) and st["top"] >= 4:
+                # present(): fill a room, let an id() hook interfere, ask for a member
+                e = rng.range(2, st["top"] + 1)
+                xs = [rng.range(2, st["top"] + 1) for _ in range(rng.range(2, 4))]
+                body += ["t mv,o%d,o%d" % (x, e) for x in xs]
+                if rng.chance(2, 3):
+                    y = rng.choice(xs)
+                    what = rng.weighted([("mv,o%d,o%d" % (y, rng.range(2, st["top"] + 1)), 5), ("de,o%d" % rng.choice(xs), 2),
+                                         ("de,o%d" % e, 1), ("mv,o%d,o%d" % (rng.choice(xs), rng.range(2, st["top"] + 1)), 2)])
+                    st.setdefault("extra_scripts", []).append("script o%d id %s" % (y, what))
+                body.append("t pr,o%d,o%d" % (e, rng.choice(xs)))
+                if rng.chance(1, 2):
+                    body.append("t pr,o%d,o%d" % (e, rng.choice(xs)))
             elif rng.chance(1, 12):
                 body.append("gc")
             else:
@@ -285,7 +305,7 @@ class C08(Prop):
 
     def histogram(self, cases, impl):
         h = {"objects_created": 0, "moves_ok": 0, "moves_refused": 0, "destructs": 0, "hooks_create": 0, "hooks_init": 0,
-             "hooks_mod": 0, "hooks_act": 0, "commands_hit": 0, "commands_miss": 0, "add_actions": 0, "errors": 0, "gone_reads": 0, "snapshots": 0, "probes": 0, "max_population": 0, "scripts": 0}
+             "hooks_mod": 0, "hooks_act": 0, "hooks_id": 0, "present_hit": 0, "present_miss": 0, "commands_hit": 0, "commands_miss": 0, "add_actions": 0, "errors": 0, "gone_reads": 0, "snapshots": 0, "probes": 0, "max_population": 0, "scripts": 0}
         for c in cases:
             pop = 0
             for l in impl.get(c.id, []):
@@ -309,6 +329,8 @@ class C08(Prop):
                         h["moves_ok"] += 1
                     elif t[1] == "de" and t[-1] == "ok":
                         h["destructs"] += 1
+                    elif t[1] == "pr" and len(t) == 5 and t[-1] != "!gone":
+                        h["present_hit" if t[-1].startswith("o") else "present_miss"] += 1
                     elif t[1] == "mvs" and len(t) > 5 and t[4] == "ok":
                         h["string_moves_ok"] = h.get("string_moves_ok", 0) + 1
                     elif t[1] == "cmd" and t[-1] in ("0", "1"):
